@@ -69,15 +69,19 @@ def run(rep):
     rep.trusted_base = list(STD_TRUSTED) + ['model of str/int on digit strings (vlib/pyvc/lib.py DigitString)', 'background lemmas: (2^s * t) >> s = t;  x & 2^s = 2^s * ((x div 2^s) mod 2)']
     for a in STD_ASSUME:
         rep.assume(a)
-    rep.assume('the query methods of Circuit / TruthTable / PyFunction, model completion and integer wrappers have no deductive obligation in this build (bounded stand-in: exhaustive for n<=2, m<=2 quick; n<=3 thorough)')
+    rep.assume('the protocol queries of TruthTable and PyFunction are proved on a symbolic truth table for the shapes (n inputs, m outputs) in {(1,1), (2,1), (2,2)} (and (3,1) in the thorough tier): all functions of these shapes; larger shapes, the queries of Circuit, find_negations_to_make_symmetric, model completion and integer wrappers have no deductive obligation (bounded stand-in: exhaustive for n<=2, m<=2 quick; n<=3 thorough)')
     it = new_interp()
     pv = Prover(rep, it, 'C12')
     for n in range(0, 6):
         pv.run_contract(CanonIndex(n))
     pv.run_contract(BitValue())
+    # protocol queries of the truth-table and the callable representation for every function of a small shape (symbolic table)
+    from . import c12_queries
+    for c in c12_queries.contracts(not quick):
+        pv.run_contract(c)
     a, b = z3.Bools('a b')
     canary(rep, pv, 'C12/canary/little-endian', [], z3.If(a, 2, 0) + z3.If(b, 1, 0) == z3.If(a, 1, 0) + z3.If(b, 2, 0))
     refuted = pv.discharge(env.NPROC)
     finish_refuted(rep, pv, refuted)
     run_bounded(rep, 'C12', quick)
-    rep.extra['explanation'] = 'index helpers proved from the real source for all values; the protocol queries themselves: bounded stand-in (exhaustive small functions, three representations).'
+    rep.extra['explanation'] = 'index helpers proved from the real source for all values; the protocol queries of TruthTable / PyFunction proved for every function of a small shape (symbolic table); Circuit representation and larger shapes: bounded stand-in.'
